@@ -136,9 +136,10 @@ def legacy_tar(path, scratch):
     os.rmdir(os.path.join(scratch, "tensors"))
 
 
-def mar_zip(path, torch):
+def mar_zip(path, torch, big=False):
     buf = io.BytesIO()
-    torch.save({"w": torch.ones(2)}, buf)
+    # big: a realistic archive (> 1 MiB, several copy-buffer lengths) instead of a toy one
+    torch.save({"w": torch.arange(620 * 620, dtype=torch.float32).reshape(620, 620)} if big else {"w": torch.ones(2)}, buf)
     with zipfile.ZipFile(path, "w") as z:
         z.writestr("MAR-INF/MANIFEST.json", b'{"model": {"modelName": "m"}}')
         z.writestr("model.pt", buf.getvalue())
